@@ -45,6 +45,21 @@ TEXT FORMAT (tokens separated by single spaces; integers decimal; bytes lowercas
       A stale entry (left by a removed key, slot reused since) passes that test as well - the dump
       alone cannot tell it from a valid entry - so with `K` only recovered keys that the oracle
       expects are accepted (17 of 334 real dumps of a quick run contain such a slot).
+  t2 nostale <same payload as `t2 index`>
+      the invariant `Pdb.Index.NoStale` (Pdb/Proofs/C09NoStale.lean; soundness `T2_checkNoStale_sound`
+      in Pdb/Props/C14Dump.lean) of the fixed write path (fix-c09-stale-index-entries) on `colOf d`:
+      for EVERY dumped entry (chunk c, slot i, entry e) of EVERY index table n (0 = current table,
+      then the queued ones; whole tables, also the chunks below the reindex progress), with
+      a = `Entry.address e bits` and v = `recover_index_key bits c e >>> 14` (key bits 63..14):
+      -> ok | bad:<reason>      reasons: no-index, index-bits, entry:<t> (as for `t2 index`),
+                                         stale:<n>:<c>:<i>  a is not the head slot of a live value, or
+                                                            bits 15..14 of the recovered prefix are not
+                                                            the top two bits of the stored key tail,
+                                                            i.e. the key recovered from (page, partial key,
+                                                            stored tail) does not hash to this entry
+                                         owner:<n>:<c>:<i>  another entry (of any table) with address a
+                                                            carries other index-visible key bits
+                                         dup:<n>:<c>:<i>    another entry of table n has address a
   t2 tree <root> <depth> { N <address> <nsep> { <keyhex> <value_address> }*nsep { <child_address> }* }*
       the btree nodes in any order (root included), children without the trailing empty slots
       -> ok | bad:<reason>      reasons: no-root, dup-node, missing-node, unreachable-node (some node is
@@ -345,6 +360,64 @@ def indexReason (d : ColumnDump) : Option String := indexReasonAux d (colOf d) (
 
 def checkIndex (d : ColumnDump) : Bool := (indexReason d).isNone
 
+/-! ## No stale index entry (`Pdb.Index.NoStale`, fix-c09-stale-index-entries) -/
+
+/-- key bits 63..14 recovered from a dumped entry (`recover_key_prefix`) -/
+def visOf (bits c e : Nat) : Nat := recover_index_key bits c e >>> 14
+
+/-- address -> index-visible key bits of the LAST dumped entry (of any table) pointing to it -/
+def ownersOf (ds : List IndexDump) : Index.Trie Nat :=
+  ds.foldl (fun m d => d.entries.foldl (fun m x =>
+      m.set Index.DEPTH (Entry.address x.2.2 d.bits) (some (visOf d.bits x.1 x.2.2))) m)
+    Index.Trie.empty
+
+/-- address -> (chunk, slot) of the LAST dumped entry of this table pointing to it -/
+def posOf (d : IndexDump) : Index.Trie (Nat × Nat) :=
+  d.entries.foldl (fun m x => m.set Index.DEPTH (Entry.address x.2.2 d.bits) (some (x.1, x.2.1)))
+    Index.Trie.empty
+
+/-- the entry points to a live value whose stored tail continues the recovered key bits -/
+def entryLive (s : Index.Col) (bits : Nat) (x : Nat × Nat × Nat) : Bool :=
+  match s.tailAt (Entry.address x.2.2 bits) with
+  | some tl => visOf bits x.1 x.2.2 % 4 == tl / 2 ^ 206
+  | none => false
+
+/-- every entry of any table with this address carries the same key bits (all equal the recorded one) -/
+def entryOwner (own : Index.Trie Nat) (bits : Nat) (x : Nat × Nat × Nat) : Bool :=
+  own.get (Entry.address x.2.2 bits) == some (visOf bits x.1 x.2.2)
+
+/-- this table has one entry with this address (all of them sit at the recorded position) -/
+def entrySingle (pos : Index.Trie (Nat × Nat)) (bits : Nat) (x : Nat × Nat × Nat) : Bool :=
+  pos.get (Entry.address x.2.2 bits) == some (x.1, x.2.1)
+
+def entryFine (s : Index.Col) (own : Index.Trie Nat) (pos : Index.Trie (Nat × Nat)) (bits : Nat)
+    (x : Nat × Nat × Nat) : Bool :=
+  entryLive s bits x && entryOwner own bits x && entrySingle pos bits x
+
+def entryWhy (s : Index.Col) (own : Index.Trie Nat) (bits : Nat) (x : Nat × Nat × Nat) : String :=
+  if !entryLive s bits x then "stale" else if !entryOwner own bits x then "owner" else "dup"
+
+/-- first entry of one table that is not fine (`pos` = `posOf` of the table, computed once) -/
+def firstBadEntry (s : Index.Col) (own : Index.Trie Nat) (pos : Index.Trie (Nat × Nat)) (bits : Nat)
+    (es : List (Nat × Nat × Nat)) : Option (Nat × Nat × Nat) :=
+  es.find? (fun x => !entryFine s own pos bits x)
+
+/-- first entry (tables in search order) that violates `NoStale` -/
+def firstStale (s : Index.Col) (own : Index.Trie Nat) : List IndexDump → Nat → Option String
+  | [], _ => none
+  | d :: ds, n =>
+    match firstBadEntry s own (posOf d) d.bits d.entries with
+    | some x => some s!"{entryWhy s own d.bits x}:{n}:{x.1}:{x.2.1}"
+    | none => firstStale s own ds (n + 1)
+
+def nostaleReason (d : ColumnDump) : Option String :=
+  guardR (!d.index.isEmpty) "no-index" fun _ =>
+  guardR (d.index.all fun x => decide (16 ≤ x.bits ∧ x.bits ≤ 49)) "index-bits" fun _ =>
+  orR ((badEntries d.index 0).map fun n => s!"entry:{n}") fun _ =>
+  firstStale (colOf d) (ownersOf d.index) d.index 0
+
+def checkNoStale (d : ColumnDump) : Bool := (nostaleReason d).isNone
+
 /-! ## Btree -/
 
 structure NodeDump where
@@ -496,6 +569,10 @@ def driverLine (args : List String) : String :=
   | "index" :: rest =>
     match parseColumn rest with
     | some d => verdict (indexReason d)
+    | none => "bad-op"
+  | "nostale" :: rest =>
+    match parseColumn rest with
+    | some d => verdict (nostaleReason d)
     | none => "bad-op"
   | "tree" :: rest =>
     match parseTree rest with
